@@ -1106,6 +1106,55 @@ fn monitor(w: &World, op: &MOp, pre: &Snap, post: &Snap, code: u32, ret: &[i128]
         }
     }
 
+    // ----- C08: a deal is activated at most once (read off the RETURN value of the activation message) -----
+    if code == 0 {
+        let mut activated: Vec<u64> = vec![];
+        match op {
+            MOp::Activate { sectors, .. } => {
+                let nf = ret[1] as usize;
+                let failed: BTreeSet<usize> = (0..nf).map(|k| ret[2 + 2 * k] as usize).collect();
+                let mut pos = 2 + 2 * nf;
+                for (si, (_, _, ids)) in sectors.iter().enumerate() {
+                    if failed.contains(&si) {
+                        continue;
+                    }
+                    // the i-th reported activation belongs to the i-th successful sector, entry by entry
+                    let n = ret.get(pos).cloned().unwrap_or(-1);
+                    if n != ids.len() as i128 {
+                        bad.push(fail("C08", "activation-return-mismatch", format!("sector #{} has {} deal ids but {} activations were reported", si, ids.len(), n)));
+                    }
+                    pos += 1 + 2 * n.max(0) as usize;
+                    activated.extend(ids.iter().cloned());
+                }
+            }
+            MOp::ContentChanged { sectors, .. } => {
+                let mut pos = 1;
+                for (_, _, ps) in sectors {
+                    let n = ret.get(pos).cloned().unwrap_or(0) as usize;
+                    for (k, (oid, _, _)) in ps.iter().enumerate() {
+                        if k < n && ret.get(pos + 1 + k).cloned().unwrap_or(0) != 0 {
+                            match oid {
+                                Some(id) => activated.push(*id),
+                                None => bad.push(fail("C08", "activation-return-mismatch", "a piece without a deal id was accepted".to_string())),
+                            }
+                        }
+                    }
+                    pos += 1 + n;
+                }
+            }
+            _ => {}
+        }
+        let mut seen: BTreeSet<u64> = BTreeSet::new();
+        for id in &activated {
+            if !seen.insert(*id) {
+                bad.push(fail("C08", "deal-activated-twice", format!("deal {} is reported as activated more than once by one message", id)));
+            }
+            if pre.states.contains_key(id) {
+                bad.push(fail("C08", "deal-activated-twice", format!("deal {} is reported as activated although it already had a deal state", id)));
+            }
+        }
+    }
+
     // ----- C08: ids, publication conditions, uniqueness -----
     if post.next_id < pre.next_id {
         bad.push(fail("C08", "next-id-decreased", format!("{} -> {}", pre.next_id, post.next_id)));
@@ -1404,6 +1453,20 @@ fn gen_op(r: &mut Prng, w: &World, s: &Snap, g: &mut Ghost, epoch: &mut i64, ste
             let cid = pid(w, caller);
             let mine = live_unactivated(s, Some(cid));
             let anyl: Vec<u64> = s.proposals.keys().cloned().collect();
+            // duplicates that are not neighbours: [a, b, a] in one sector, or a again in a later sector
+            let ready: Vec<u64> = mine.iter().cloned().filter(|i| s.proposals[i].start_epoch >= epoch).collect();
+            if ready.len() >= 2 && r.chance(18) {
+                let a = *r.pick(&ready);
+                let others: Vec<u64> = ready.iter().cloned().filter(|x| *x != a).collect();
+                let b = *r.pick(&others);
+                let max_end = s.proposals[&a].end_epoch.max(s.proposals[&b].end_epoch) + r.range(0, 1000);
+                let sectors = if r.chance(50) {
+                    vec![(1 + r.below(5), max_end, vec![a, b, a])]
+                } else {
+                    vec![(1 + r.below(5), max_end, vec![a]), (1 + r.below(5), max_end, vec![b, a])]
+                };
+                return MOp::Activate { caller, epoch, sectors };
+            }
             let ns = match r.below(100) { 0..=64 => 1, 65..=89 => 2, 90..=96 => 3, _ => 0 };
             let mut sectors = vec![];
             let mut used: Vec<u64> = vec![];
